@@ -5,6 +5,9 @@ import (
 	"errors"
 	"fmt"
 	"io"
+	"math/big"
+	"os"
+	"os/exec"
 	"runtime"
 	"strings"
 	"sync"
@@ -547,6 +550,48 @@ func propC12BSI(t *rapid.T) {
 		if g := b64.MinMax(workers, roaring64.MAX, nil); g != mx {
 			panic(fmt.Sprintf("BSI64 MinMax(MAX)=%d want %d", g, mx))
 		}
+		if g := b32.MinMax(workers, bsi32.MAX, nil); g != mx {
+			panic(fmt.Sprintf("BSI32 MinMax(MAX)=%d want %d", g, mx))
+		}
+		// more workers than columns (idle workers), and a found-set of one column
+		for _, w := range []int{workers, 5, 33} {
+			one := roaring.BitmapOf(0)
+			if g := b32.MinMax(w, bsi32.MIN, one); g != vals[0] {
+				panic(fmt.Sprintf("BSI32 MinMax(%d workers, MIN, {0})=%d want %d", w, g, vals[0]))
+			}
+			one64 := roaring64.BitmapOf(0)
+			if g := b64.MinMax(w, roaring64.MIN, one64); g != vals[0] {
+				panic(fmt.Sprintf("BSI64 MinMax(%d workers, MIN, {0})=%d want %d", w, g, vals[0]))
+			}
+		}
+		// an index wider than 63 planes takes the per-column goroutine path for comparisons: mixed signs over several batches
+		{
+			wide := roaring64.NewDefaultBSI()
+			wantNeg := 0
+			for i := 0; i < n; i++ {
+				v := int64(i%7) - 3
+				wide.SetValue(uint64(i)*stride, v)
+				if v < 0 {
+					wantNeg++
+				}
+			}
+			hugeCol := uint64(n)*stride + 1
+			wide.SetBigValue(hugeCol, new(big.Int).Lsh(big.NewInt(1), 70))
+			got := wide.CompareBigValue(workers, roaring64.LT, big.NewInt(0), nil, nil)
+			if int(got.GetCardinality()) != wantNeg {
+				panic(fmt.Sprintf("BSI64 (71 planes) CompareBigValue(LT 0): %d columns want %d", got.GetCardinality(), wantNeg))
+			}
+			ge := wide.CompareBigValue(workers, roaring64.GE, big.NewInt(-1), nil, nil)
+			wantGE := 1
+			for i := 0; i < n; i++ {
+				if int64(i%7)-3 >= -1 {
+					wantGE++
+				}
+			}
+			if int(ge.GetCardinality()) != wantGE {
+				panic(fmt.Sprintf("BSI64 (71 planes) CompareBigValue(GE -1): %d columns want %d", ge.GetCardinality(), wantGE))
+			}
+		}
 		tw := b64.TransposeWithCounts(workers, nil, roaring64.BitmapOf(func() []uint64 {
 			var o []uint64
 			for v := range hist {
@@ -634,3 +679,68 @@ func propC12BSI(t *rapid.T) {
 func TestC12Aggregates(t *testing.T) { rapid.Check(t, propC12Aggregates) }
 func TestC12Decode(t *testing.T)     { rapid.Check(t, propC12Decode) }
 func TestC12BSI(t *testing.T)        { rapid.Check(t, propC12BSI) }
+
+// TestRegressC12SingleProc: the aggregates in a process that STARTS with GOMAXPROCS=1 (whatever the package
+// derives from the processor count at start-up is derived from 1 there). Run as a child process with a watchdog.
+func TestRegressC12SingleProc(t *testing.T) {
+	if os.Getenv("VERIF_C12_CHILD") == "1" {
+		a, b, c := roaring.New(), roaring.New(), roaring.New()
+		for k := uint32(0); k < 40; k++ {
+			a.Add(k<<16 | 1)
+			b.Add(k<<16 | 2)
+			if k%2 == 0 {
+				c.Add(k<<16 | 1)
+			}
+			a.Add(k<<16 | 9)
+			b.Add(k<<16 | 9)
+			c.Add(k<<16 | 9)
+		}
+		for _, w := range []int{0, 1, 3} {
+			if g := roaring.ParOr(w, a, b, c).GetCardinality(); g != 120 {
+				fmt.Printf("CHILD-FAIL ParOr(%d)=%d want 120\n", w, g)
+				os.Exit(3)
+			}
+			if g := roaring.ParHeapOr(w, a, b, c).GetCardinality(); g != 120 {
+				fmt.Printf("CHILD-FAIL ParHeapOr(%d)=%d want 120\n", w, g)
+				os.Exit(3)
+			}
+			if g := roaring.ParAnd(w, a, b, c).GetCardinality(); g != 40 {
+				fmt.Printf("CHILD-FAIL ParAnd(%d)=%d want 40\n", w, g)
+				os.Exit(3)
+			}
+		}
+		x, y := roaring64.New(), roaring64.New()
+		for k := uint64(0); k < 40; k++ {
+			x.Add(k<<32 | 1)
+			y.Add(k<<32 | 2)
+		}
+		if g := roaring64.ParOr(0, x, y, x).GetCardinality(); g != 80 {
+			fmt.Printf("CHILD-FAIL roaring64.ParOr(0)=%d want 80\n", g)
+			os.Exit(3)
+		}
+		fmt.Println("CHILD-OK")
+		return
+	}
+	cmd := exec.Command(os.Args[0], "-test.run=^TestRegressC12SingleProc$")
+	cmd.Env = append(os.Environ(), "VERIF_C12_CHILD=1", "GOMAXPROCS=1", "VERIF_STATS=")
+	var out bytes.Buffer
+	cmd.Stdout, cmd.Stderr = &out, &out
+	if err := cmd.Start(); err != nil {
+		t.Skipf("cannot spawn: %v", err)
+	}
+	done := make(chan error, 1)
+	go func() { done <- cmd.Wait() }()
+	select {
+	case err := <-done:
+		if err != nil || !strings.Contains(out.String(), "CHILD-OK") {
+			o := out.String()
+			if len(o) > 1500 {
+				o = o[:1500]
+			}
+			t.Fatalf("parallel aggregates in a process started with GOMAXPROCS=1: %v\n%s", err, o)
+		}
+	case <-time.After(120 * time.Second):
+		cmd.Process.Kill()
+		t.Fatalf("parallel aggregates in a process started with GOMAXPROCS=1 did not finish within 120 s (deadlock): %s", out.String())
+	}
+}
